@@ -540,7 +540,8 @@ def hunt2_rules(chk, repo):
             txt = next(k.value for k in call.keywords if k.arg == "text")
             bad = []
             for js in [j for j in ast.walk(txt) if isinstance(j, ast.JoinedStr)]:
-                bad += [v for v in js.values if isinstance(v, ast.FormattedValue) and v.conversion not in (114, 97) and tainted(fn, v.value, defs, r)]
+                bad += [v for v in js.values if isinstance(v, ast.FormattedValue) and v.conversion not in (114, 97) and tainted(fn, v.value, defs, r)
+                        and not (isinstance(v.value, ast.Call) and norm.raw(v.value.func) in ("repr", "ascii"))]
             for bo in [b for b in ast.walk(txt) if isinstance(b, ast.BinOp) and isinstance(b.op, ast.Mod) and isinstance(b.left, ast.Constant) and isinstance(b.left.value, str)]:
                 if tainted(fn, bo.right, defs, r) and "%s" in bo.left.value:
                     bad.append(bo)
